@@ -171,6 +171,14 @@ def successors(state):
                     for k in fields:
                         d2["items"][k]["number"] = fn(d2["items"][k]["number"])
                     yield emit(("renumber", d["name"], label), ns)
+            # 9b. ... up to the largest admissible numbers: rank r of n fields -> 255 - (n - 1 - r)
+            if fields and max(d["items"][k]["number"] for k in fields) < 255:
+                ns = sym.clone(s)
+                _, d2, _, _, _ = sym.find(ns, d["id"])
+                ranked = sorted(fields, key=lambda k: d["items"][k]["number"])
+                for r, k in enumerate(ranked):
+                    d2["items"][k]["number"] = 255 - (len(ranked) - 1 - r)
+                yield emit(("renumber", d["name"], "top255"), ns)
             # 4a. introduce an alias for a field's base/array type
             for k in fields:
                 t = d["items"][k]["type"]
@@ -522,7 +530,7 @@ def main(pid, tier):
                states_also_checked_in_C=c["c_states"], states_also_checked_in_C_optimization_mode=c["c_opt_states"],
                rule="BFS over rewrite events (rename definitions/fields/members, reorder field declarations, swap independent definitions, introduce/"
                     "inline alias, nested<->top level, move into imported file with/without `as`, comments/whitespace/semicolons, capacity literal -> "
-                    "constant / K*1 / (K+1)-1 / (K*2)*3/2/3 / K+K*4/2-K*2, renumber +1 / x2) to depth %d from %d roots, canonical de-duplication; every state compiled by the real "
+                    "constant / K*1 / (K+1)-1 / (K*2)*3/2/3 / K+K*4/2-K*2, renumber +1 / x2 / up to 255) to depth %d from %d roots, canonical de-duplication; every state compiled by the real "
                     "compiler; every BASIS value of the root encoded by the generated Python (and by generated C on every %dth state) and compared with "
                     "the root's bytes; non-trivial = value has a bit set" % (2 if tier == "quick" else 3, len(roots()), 7 if tier == "quick" else 3),
                exhaustive=not c["capped"], bound="depth %d, state cap per root %d" % (2 if tier == "quick" else 3, 1600 if tier == "quick" else 12000))
